@@ -19,7 +19,10 @@
 EXTENDS Naturals, Sequences, FiniteSets, TLC, Json, SequencesExt
 
 CONSTANTS Scope,     \* "small" | "full"
-          Mutant     \* "none" or a self-test mutant
+          Mutant,    \* "none" or a self-test mutant
+          DepEnumOffered  \* whether the emitted clients offer the ENUM field of a dependency-package request as a flattened
+                          \* parameter (today they do not: non-primitive entries are dropped for such requests - a named deviation;
+                          \* the harness reads it off inspect.signature, and if a client offers it, it must work like any other)
 
 Fields == {"name", "count", "flag", "tags", "labels", "inner.name", "kind", "class", "request_id", "opt_request_id"}
 PresenceFields == {"opt_request_id"}        \* explicit presence (proto3 optional)
@@ -41,9 +44,10 @@ Methods ==
     [name |-> "WatchThings", cs |-> FALSE, ss |-> TRUE,  void |-> FALSE, dep |-> FALSE, flat |-> <<"name">>, auto |-> {}],
     [name |-> "UploadThings", cs |-> TRUE, ss |-> FALSE, void |-> FALSE, dep |-> FALSE, flat |-> <<>>, auto |-> {}],
     [name |-> "ChatThings",  cs |-> TRUE,  ss |-> TRUE,  void |-> FALSE, dep |-> FALSE, flat |-> <<>>, auto |-> {}],
-    [name |-> "CheckDep",    cs |-> FALSE, ss |-> FALSE, void |-> FALSE, dep |-> TRUE,  flat |-> <<"name", "tags">>, auto |-> {}] }
+    [name |-> "CheckDep",    cs |-> FALSE, ss |-> FALSE, void |-> FALSE, dep |-> TRUE,
+       flat |-> IF DepEnumOffered THEN <<"name", "tags", "kind">> ELSE <<"name", "tags">>, auto |-> {}] }
 \* fields each request type actually has (the dependency-package request is smaller)
-HasField(m, f) == IF m.dep THEN f \in {"name", "tags", "labels", "count"} ELSE TRUE
+HasField(m, f) == IF m.dep THEN f \in {"name", "tags", "labels", "count", "kind"} ELSE TRUE
 
 Forms == {"msg", "dict", "none", "kwargs", "both"}
 Transports == {"grpc", "grpc_asyncio", "rest"}
